@@ -170,6 +170,7 @@ type SrvFid struct {
 	User      User        // The SrvFid's user
 	Aux       interface{} // Can be used by the file server implementation for per-SrvFid data
 	destroyed bool        // FidDestroy has been reported for the SrvFid
+	creating  bool        // the request that creates the fid has not succeeded yet
 }
 
 // The SrvReq type represents a 9P2000 request. Each request has a
@@ -472,12 +473,25 @@ func (req *SrvReq) Flush() {
 func (conn *Conn) FidGet(fidno uint32) *SrvFid {
 	conn.Lock()
 	fid, present := conn.fidpool[fidno]
+	if present && fid.creating {
+		/* still being created by a Tattach, Tauth or Twalk in progress:
+		   not a fid another request can name yet */
+		fid, present = nil, false
+	}
 	conn.Unlock()
 	if present {
 		fid.IncRef()
 	}
 
 	return fid
+}
+
+// Makes a new fid valid for the other requests of the connection, once
+// the request that creates it has succeeded.
+func (fid *SrvFid) publish() {
+	fid.Fconn.Lock()
+	fid.creating = false
+	fid.Fconn.Unlock()
 }
 
 // Creates a new SrvFid struct for the fidno integer. Returns nil
@@ -495,6 +509,7 @@ func (conn *Conn) FidNew(fidno uint32) *SrvFid {
 	fid.fid = fidno
 	fid.refcount = 1
 	fid.Fconn = conn
+	fid.creating = true
 	conn.fidpool[fidno] = fid
 	conn.Unlock()
 
